@@ -22,7 +22,7 @@ PROPERTY = 'C19'
 LEVEL = 'model_checking'
 TARGET = 'checks.c19:run'
 
-SETTINGS = ['T', 'A', 'S1', 'TB', 'OP']
+SETTINGS = ['T', 'A', 'S1', 'TB', 'OP', 'F', 'O0']
 MAX_INV = 2
 
 
@@ -39,7 +39,7 @@ def model_successors(hist, reduced=False):
             depth -= ev[1]
         elif ev[0] == 'mkinv':
             ninv += 1
-    out = [['push', s] for s in SETTINGS if not (reduced and s == 'OP')] + [['read']]
+    out = [['push', s] for s in SETTINGS if not (reduced and s in ('OP', 'O0', 'TB'))] + [['read']]
     if ninv < MAX_INV:
         out.append(['mkinv'])
     out += [['apply', i] for i in range(ninv)]
@@ -69,7 +69,7 @@ def canon(hist):
     return (tuple(stack), tuple(inv), tuple(sorted(map(repr, used))))
 
 
-FIELDS = {'T': {'throw': True}, 'A': {'cb': 'A'}, 'S1': {'solver': 'CG1'}, 'TB': {'throw': True, 'cb': 'B'}, 'OP': {'opts': 'P'}}
+FIELDS = {'T': {'throw': True}, 'A': {'cb': 'A'}, 'S1': {'solver': 'CG1'}, 'TB': {'throw': True, 'cb': 'B'}, 'OP': {'opts': 'P'}, 'F': {'throw': False}, 'O0': {'opts': 'none'}}
 
 
 def model_fp(stack):
@@ -205,6 +205,8 @@ def _setup():
     S = DenseBlockDiagonalOperator(jnp.array([[2.0, 1.0], [1.0, 3.0]], f32), jax.ShapeDtypeStruct((2,), f32), 'ij,j->i')
     SINV = DenseBlockDiagonalOperator(jnp.array([[3.0, -1.0], [-1.0, 2.0]], f32) / 5, jax.ShapeDtypeStruct((2,), f32), 'ij,j->i')
     SET['OP'] = dict(solver_options={'preconditioner': SINV})
+    SET['F'] = dict(solver_throw=False)      # falsy overrides: must replace a truthy outer value
+    SET['O0'] = dict(solver_options={})
     import equinox
 
     _W.update(make_fjit=lambda: equinox.filter_jit(lambda inv, x: inv.mv(x)))
